@@ -364,6 +364,8 @@ var whereAtoms = []string{
 	`m["y"].Type.Implements("chk.TaggedIface")`, `!m["x"].Type.HasMethod("chk.TaggedIface.Tag")`,
 	// an interface the rules file declares itself: its qualified name is <the package Load checks rules files as>.<name>
 	`m["x"].Type.Implements("gorules.localNamed")`, `!m["y"].Type.HasMethod("gorules.localNamed.String")`,
+	// types named by their full import path
+	`m["y"].Type.Implements("example.com/chk.TaggedIface")`, `!m["x"].Type.Implements("example.com/chk.TaggedIface")`,
 }
 
 // Comparisons with the constant on the LEFT. The loader accepts the commutative ones; what it does with the ordering
@@ -450,6 +452,11 @@ func (g *gen) rulesFile(id int) string {
 	if useStrings {
 		sb.WriteString("\t\"strings\"\n")
 	}
+	// the package of the types named by full path below is, in half of the files, a dependency of the rules package
+	// itself: loading from source may find it there, loading from IR has only the importer
+	if id%2 == 1 {
+		sb.WriteString("\t_ \"example.com/chk\"\n")
+	}
 	sb.WriteString(")\n\n")
 	if useStrings {
 		sb.WriteString("func startsWithA(ctx *dsl.VarFilterContext) bool {\n\treturn strings.HasPrefix(ctx.GetType(\"string\").String(), \"s\")\n}\n\n")
@@ -521,6 +528,7 @@ func (g *gen) rulesFile(id int) string {
 	// custom functions in every position they can take: a Filter() alone and inside && / || / !, Do() with and without Where()
 	fmt.Fprintf(&sb, "func custom%d(m dsl.Matcher) {\n", id)
 	fmt.Fprintf(&sb, "\tm.Match(`k($x, $y)`).Where(m[\"y\"].Type.Implements(`gorules.localNamed`) && !m[\"y\"].Type.Implements(`error`)).Report(`file %d: k with a local interface $y`)\n", id)
+	fmt.Fprintf(&sb, "\tm.Match(`k($x, $y)`).Where(m[\"y\"].Type.Implements(`example.com/chk.TaggedIface`)).Report(`file %d: k with a tagged $y`)\n", id)
 	fmt.Fprintf(&sb, "\tm.Match(`k($x, $y)`).Where(m[\"x\"].Filter(startsWithA)).Report(`file %d: k with string $x`)\n", id)
 	fmt.Fprintf(&sb, "\tm.Match(`k($x, $y)`).Where(!m[\"x\"].Filter(isZeroInt) && (m[\"y\"].Filter(startsWithA) || m[\"y\"].Const)).Do(reportDo)\n")
 	fmt.Fprintf(&sb, "\tm.Match(`k($x, $y)`).Where(m[\"y\"].Type.Is(`error`)).Do(suggestDo)\n")
